@@ -210,6 +210,11 @@ pub fn canonical_raw(
     // Append fields in ascending tags order.
     for (num, mut values) in read_fields(buf, desc)? {
         let fd = desc.get_field(num).unwrap();
+        // An empty packed repeated field carries no elements:
+        // it is omitted, exactly as if the field was absent.
+        if values.is_empty() {
+            continue;
+        }
         if values.len() > 1 && !fd.is_list() {
             anyhow::bail!("non-repeated field with multiple values");
         }
